@@ -4,7 +4,7 @@ from .fam_rules import RulesFam
 
 R = "protocol/rules/"
 PROP = Property(
-    "C04", ["HsVerif.Props.C04"], [RulesFam()],
+    "C04", ["HsVerif.Props.C04", "HsVerif.Props.C04Gen"], [RulesFam()],
     facts=[
         # shape of the rule code the model mirrors (order of look-ups, early exits, comparisons)
         {"func": R + "chainedhotstuff.go:ChainedHotStuff.CommitRule",
